@@ -44,7 +44,9 @@ def main(tier, only=None):
         "read_macro_args, stringification text (quote_string/join_tokens), arguments of more than one token",
     ]
     if want("hideset"):
-        e1.run_set(chk, "c09/macro.c", [e1.H("h_hideset", "hideset/algebra", unwind=10, timeout=300)], workers=2)
+        e1.run_set(chk, "c09/macro.c", [e1.H("h_hideset", "hideset/algebra", unwind=10, timeout=300),
+                                         e1.H("h_expand_hideset", "hideset/expansion-gets-intersection-plus-name", unwind=10, timeout=600,
+                                              desc="real expand_macro on `FM ( ) z` / `OM z` with symbolic hide sets on the macro token, the closing paren and the next token")], workers=2)
     if want("subst"):
         hs = []
         for j in range(nb):
